@@ -192,6 +192,25 @@ impl GraphSnapshot for StorageSnapshot {
         // Index entries of deleted nodes are not removed at commit; never hand them out.
         results.retain(|iid| !self.tombstoned_nodes.contains(iid));
 
+        // The index pages are updated in place before the transaction's commit record is
+        // durable, so after a crash they can hold entries of a transaction that never
+        // committed. Only hand out candidates that this snapshot confirms.
+        drop(pager);
+        // (such a leftover entry can also duplicate the entry of a later transaction)
+        results.sort_unstable();
+        results.dedup();
+        let label_id = self.resolve_label_id(label);
+        results.retain(|iid| {
+            (*iid as usize) < self.i2e.len()
+                && label_id.is_some_and(|l| {
+                    self.resolve_node_labels(*iid)
+                        .is_some_and(|labels| labels.contains(&l))
+                })
+                && self
+                    .node_property(*iid, field)
+                    .is_some_and(|v| probes.iter().any(|p| *p == convert_property_to_storage(v.clone())))
+        });
+
         if results.is_empty() {
             None
         } else {
